@@ -235,6 +235,21 @@ def write_gcf(path, traces, rate):
     st.write(str(path), format="GCF")
 
 
+def write_mseed_own_rates(path, traces, encoding=None):
+    """``traces`` = ordered list of (channel code, numpy array, sampling rate of THAT trace)."""
+    import obspy
+    st = obspy.Stream([_trace(c, d, r) for c, d, r in traces])
+    kw = {} if encoding is None else {"encoding": encoding}
+    st.write(str(path), format="MSEED", **kw)
+
+
+def write_gcf_own_rates(path, traces):
+    """``traces`` = ordered list of (channel code, int32 numpy array, sampling rate of THAT trace)."""
+    import obspy
+    st = obspy.Stream([_trace(c, np.asarray(d, dtype=np.int32), r) for c, d, r in traces])
+    st.write(str(path), format="GCF")
+
+
 def lcg_bytes(n, seed=20260407):
     """Deterministic 'random' bytes (linear congruential generator)."""
     out = bytearray()
